@@ -111,6 +111,8 @@ type frame struct {
 type state struct {
 	implSeen map[string]bool
 	cvBinds []Val // bindings of the closure whose contract is being applied
+	callResult *Val // result of the call an `after call` clause is attached to (single-valued or tuple)
+	callArgs map[string]Val // operands of the call a site clause is attached to, by parameter name
 	u       *unit
 	vals    map[ssa.Value]Val
 	heaps   map[string]string
